@@ -25,6 +25,85 @@ pub enum Case {
     Text { text: String, uses_mnemonic: bool },
     /// `step out` in the debugger under both flags
     StepOut { flag: bool },
+    /// the real binary: one way of invoking it (`form`) with one spelling of the flag (`flag`:
+    /// 0 none, 1 `-f stack`, 2 `--features stack`, 3 `--features=stack`, 4 `-f stack` before the
+    /// file), on a program that uses / does not use the extension
+    Cli { form: u8, flag: u8, uses_stack: bool },
+}
+
+/// Every way the command line reaches the feature state: run, compile + run of the object file, the
+/// sub-command-less form, debug. With the flag the stack program prints its marker and exits 0;
+/// without it the source is rejected with a diagnostic that names the feature (and the object
+/// file stops with status 1); the plain program behaves identically either way.
+fn judge_cli(form: u8, flag: u8, uses_stack: bool) -> Obs {
+    use crate::cli::{self, TempDir};
+    let mut obs = Obs::default();
+    obs.key = hash_of(&("cli", form, flag, uses_stack));
+    obs.nontrivial = true;
+    obs.label("real-binary-invocation");
+    let text = if uses_stack {
+        ".orig x3000\nlea r0 msg\npush r0\nand r0 r0 #0\npop r0\ncall sub\nhalt\nsub puts\nrets\nmsg .stringz \"OK\"\n"
+    } else {
+        ".orig x3000\nlea r0 msg\njsr sub\nhalt\nsub puts\nret\nmsg .stringz \"OK\"\n"
+    };
+    let dir = TempDir::new();
+    dir.write("p.asm", text.as_bytes());
+    let flag_args: Vec<&str> = match flag % 5 {
+        0 => vec![],
+        1 | 4 => vec!["-f", "stack"],
+        2 => vec!["--features", "stack"],
+        _ => vec!["--features=stack"],
+    };
+    let with_flag = flag % 5 != 0;
+    let build = |head: &[&str], file: &str, tail: &[&str]| -> Vec<String> {
+        let mut a: Vec<String> = head.iter().map(|s| s.to_string()).collect();
+        if flag % 5 == 4 {
+            a.extend(flag_args.iter().map(|s| s.to_string()));
+            a.push(file.to_string());
+        } else {
+            a.push(file.to_string());
+            a.extend(flag_args.iter().map(|s| s.to_string()));
+        }
+        a.extend(tail.iter().map(|s| s.to_string()));
+        a
+    };
+    let run_args = |a: &[String]| {
+        let refs: Vec<&str> = a.iter().map(|s| s.as_str()).collect();
+        cli::lace(&refs, dir.path(), &[], false, 60)
+    };
+    let (what, run) = match form % 4 {
+        0 => ("lace run p.asm", run_args(&build(&["run"], "p.asm", &[]))),
+        1 => ("lace p.asm", run_args(&build(&[], "p.asm", &[]))),
+        2 => ("lace debug p.asm --minimal --command continue", run_args(&build(&["debug"], "p.asm", &["--minimal", "--command", "continue"]))),
+        _ => {
+            let c = run_args(&build(&["compile"], "p.asm", &[]));
+            if c.ok() {
+                ("lace compile p.asm; lace run p.lc3", run_args(&build(&["run"], "p.lc3", &[])))
+            } else {
+                ("lace compile p.asm", c)
+            }
+        }
+    };
+    obs.show = Some(format!("{what} with flag spelling #{} on a program that {} the extension", flag % 5, if uses_stack { "uses" } else { "does not use" }));
+    if run.timed_out {
+        obs.excluded = Some("watchdog");
+        return obs;
+    }
+    let out = String::from_utf8_lossy(&run.stdout).to_string();
+    let err = String::from_utf8_lossy(&run.stderr).to_string();
+    if run.panicked() {
+        obs.set_fail("C18:cli-crashes", format!("{what}: {}", run.brief()));
+    } else if !uses_stack || with_flag {
+        if !run.ok() || !out.contains("OK") {
+            obs.set_fail(
+                if uses_stack { "C18:cli-flag-not-honoured" } else { "C18:cli-plain-program-affected" },
+                format!("{what} (flag spelling #{}): expected the program to print OK and exit 0\n{}", flag % 5, run.brief()),
+            );
+        }
+    } else if run.ok() || !(err.to_lowercase().contains("stack") || out.to_lowercase().contains("stack")) {
+        obs.set_fail("C18:cli-gate-missing", format!("{what} without the flag: expected a diagnostic that names the feature and an error exit\n{}", run.brief()));
+    }
+    obs
 }
 
 const BUDGET: u64 = 4000;
@@ -229,6 +308,7 @@ pub fn judge_case(c: &Case) -> Obs {
                 obs.set_fail("C18:stack-word-usable-as-label", format!("flag on: the word was accepted in label position\n{text}"));
             }
         }
+        Case::Cli { form, flag, uses_stack } => return judge_cli(*form, *flag, *uses_stack),
         Case::StepOut { flag } => {
             obs.key = *flag as u64;
             obs.nontrivial = true;
@@ -344,7 +424,7 @@ impl Prop for C18 {
         "C18"
     }
     fn rule(&self) -> &'static str {
-        "Both flag values x (a) ProgGen programs with and without push/pop/call/rets, rendered under varied layouts (any keyword case), (b) arbitrary word images with raw 0xD words that are / are not reached at run time, (c) every one of the four words in 16 letter-case patterns in instruction, label and operand position (enumerated), (d) `step out` in the debugger. \
+        "Both flag values x (a) ProgGen programs with and without push/pop/call/rets, rendered under varied layouts (any keyword case), (b) arbitrary word images with raw 0xD words that are / are not reached at run time, (c) every one of the four words in 16 letter-case patterns in instruction, label and operand position (enumerated), (d) `step out` in the debugger, (e) the real binary invoked as run / sub-command-less / debug / compile + run of the object file, with the flag absent, spelled three ways, and placed before the file, on a program that uses and one that does not use the extension (enumerated). \
          Oracle: flag off: a stack mnemonic is rejected and the diagnostic contains 'stack'; reaching 0xD stops with exit status 1 with the machine exactly as before the word (RefVM). Flag on: the documented encodings (RefAsm) and RefVM behaviour. No stack mnemonic and no executed 0xD: identical image, output, exit, input consumption and full final state under both settings. The words are never accepted as labels. \
          Non-trivial: the program contains a stack mnemonic / the image contains a 0xD word / a text or step-out case. Distinct = hash(case)."
     }
@@ -354,8 +434,24 @@ impl Prop for C18 {
             "flag spellings other than the value 'stack' (duplicates, unknown names) are not asserted; the CLI spelling -f/--features is exercised in C07".into(),
         ]
     }
+    fn needs_cli(&self) -> bool {
+        true
+    }
     fn run_worker(&self, ctx: &Ctx, rep: &mut Report) {
         texts(ctx, rep);
+        // the command line's ways of reaching the feature state (real binary, enumerated)
+        let mut k = 0u64;
+        for form in 0..4u8 {
+            for flag in 0..5u8 {
+                for uses_stack in [false, true] {
+                    k += 1;
+                    if ctx.mine(k) {
+                        judge_one(ctx, rep, &Case::Cli { form, flag, uses_stack }, &mut |c| judge_case(c));
+                    }
+                }
+            }
+        }
+        rep.exhaustive.push("real binary: {run, sub-command-less, debug, compile + run of the object file} x {no flag, -f stack, --features stack, --features=stack, flag before the file} x {program with, without stack instructions}".into());
         let n = ctx.share(ctx.tier.pick(20_000, 200_000));
         drive(ctx, rep, "configs", cases(), n, &mut |c: &Case| judge_case(c));
     }
